@@ -5,7 +5,7 @@ from ..affine import Lin
 from ..front import dotted, const_value, unparse, walk_no_nested, parent_map, kwarg
 from ..core import holds, violation, unrecognised
 from ..flow import AbsInt
-from ..rules import decide_states
+from ..rules import decide_states, reaching_defs
 
 ID = "C18"
 MIN_INSTANCES = 14
@@ -169,6 +169,12 @@ def count_rules(repo):
             out.append(violation("R-AXES", fi, role, "flat index `%s` is annotation-major but the reshape is (n_examples, n_annotations)" % t, xi))
         else:
             out.append(unrecognised("R-AXES", fi, role, "flat index is `%s`" % t, xi))
+    elif _stride_version_mismatch(fi, xi) is not None:
+        rs_, da, db = _stride_version_mismatch(fi, xi)
+        out.append(violation("R-AXES", fi, role, "the flat index uses the value of n_annotations defined at line(s) %s but the reshape/"
+                             "allocation at line %d sees the definition(s) at line(s) %s (the `shape` override changes the row stride)" % (
+                                 sorted(da), rs_.lineno, sorted(db)), xi,
+                             witness={"shape": "(n_examples, wider than max annotation + 1)", "effect": "rows of examples >= 1 land in wrong cells"}))
     else:
         # allocation and reshape in the same branch
         br = [n for n in walk_no_nested(fi.node) if isinstance(n, ast.If) and any(x is xi for x in ast.walk(n))]
@@ -217,6 +223,18 @@ def count_rules(repo):
     ok = xo is not None and unparse(xo.value) in ("torch.ones(len(X), dtype=dtype)", "torch.ones(X.shape[0], dtype=dtype)")
     out.append((holds if ok else unrecognised)("R-AXES", fi, role, unparse(xo.value) if xo is not None else "X_ones missing", xo or fi.node, nontrivial=False))
     return out
+
+
+def _stride_version_mismatch(fi, xi):
+    """the n_annotations used as row stride must be the same definition the reshape / allocation sees"""
+    rd = reaching_defs(fi, "n_annotations")
+    da = rd.get(id(xi))
+    for s_ in walk_no_nested(fi.node):
+        if isinstance(s_, ast.Assign) and ".reshape(n_examples, n_annotations)" in unparse(s_.value):
+            db = rd.get(id(s_))
+            if da is not None and db is not None and da != db:
+                return s_, da, db
+    return None
 
 
 def pairwise_rules(repo):
